@@ -584,7 +584,6 @@ func c30eval(c c30case) (viols []c30viol, outcome string, nontrivial bool) {
 	return viols, strings.Join(classes, ","), nontrivial
 }
 
-
 // ---- "reply lost" family: the k-th command of one Exec is executed by the server but its reply is lost (transport
 // error). The wrapper then does what the real client does with retries enabled (C28): it sends the command again iff
 // the command is flagged retryable (read-only or ToRetryable). A script whose constructor did not opt in must not run twice.
